@@ -210,7 +210,38 @@ func runC19(c *Ctx, r *Report) {
 	if fd := decl("codeGenerator.genFieldsArray"); fd != nil {
 		okTbl := false
 		why := "lookup-table emitter not recognised"
+		rowCheck := func(es *ast.ExprStmt) {
+			call := es.X.(*ast.CallExpr)
+			var args []string
+			for _, a := range call.Args {
+				if s, ok := constStrOf(info, a); ok {
+					args = append(args, "'"+strings.ReplaceAll(s, " ", "")+"'")
+				} else {
+					args = append(args, strings.ReplaceAll(exprStr(a), " ", ""))
+				}
+			}
+			got := strings.Join(args, " ")
+			want := "f.DefNum ':{' i ',' f.DefNum ',' f.FType.ValueString() ',' f.Length '},'"
+			if got == want {
+				okTbl = true
+				why = "row key = definition number, struct index = position in msg.Fields, number = definition number, then type code and length"
+			} else {
+				why = "table row is emitted as [" + got + "], expected [" + want + "]"
+			}
+		}
 		ast.Inspect(fd.Body, func(nd ast.Node) bool {
+			// the same loop as `for i, f := range msg.Fields { emit }`
+			if rs, ok := nd.(*ast.RangeStmt); ok && rs.Tok == token.DEFINE && rs.Key != nil && rs.Value != nil &&
+				exprStr(rs.Key) == "i" && exprStr(rs.Value) == "f" && strings.ReplaceAll(exprStr(rs.X), " ", "") == "msg.Fields" {
+				if len(rs.Body.List) == 1 {
+					if es, ok := rs.Body.List[0].(*ast.ExprStmt); ok && isGP(es.X) {
+						rowCheck(es)
+						return true
+					}
+				}
+				why = "table loop body is not a single g.p(...)"
+				return true
+			}
 			fs, ok := nd.(*ast.ForStmt)
 			if !ok || fs.Cond == nil || strings.ReplaceAll(exprStr(fs.Cond), " ", "") != "i<len(msg.Fields)" {
 				return true
@@ -542,7 +573,9 @@ func c19VersionParsing(c *Ctx, r *Report) {
 	}
 	n := 0
 	for _, fn := range c.moduleFuncs() {
-		if pp := fnPkgPath(fn); pp != mainPath && pp != genPath && pp != strPath {
+		// the command package only: that is where version strings are handled (in the generator package
+		// a Trim with a set of characters, e.g. Trim(cell, "[]"), is an ordinary way to strip brackets)
+		if pp := fnPkgPath(fn); pp != mainPath {
 			continue
 		}
 		for _, ci := range allCalls(fn) {
